@@ -184,6 +184,45 @@ def expected_layout(bay, comps):
     return rng, pos
 
 
+def strip_mismatch_hessian(atoms, kt, d, Sp, Sb, eta1, eta2, a, b, startp, startb):
+    """Hessian of kt/2 int_0^a int_y1^y2 [(u_p + d w_p,x - u_b)^2 + (v_p + d w_p,y - v_b)^2 + (w_p - w_b)^2] dy dx with the skin series Sp
+    on eta_p in [eta1, eta2] and the base series Sb on its whole width, eta_p = c0 + c1 eta_b; {(row, col): Sym}, all ordered pairs"""
+    one, two = Sym.lift(1), Sym.lift(2)
+    eta1, eta2 = Sym.lift(eta1), Sym.lift(eta2)
+    c0, c1 = (eta1 + eta2) / 2, (eta2 - eta1) / 2
+    terms = [[('p', 'u', 0, 0, one), ('p', 'w', 1, 0, d), ('b', 'u', 0, 0, -one)],
+             [('p', 'v', 0, 0, one), ('p', 'w', 0, 1, d), ('b', 'v', 0, 0, -one)],
+             [('p', 'w', 0, 0, one), ('b', 'w', 0, 0, -one)]]
+    Sd = {'p': Sp, 'b': Sb}
+    start = {'p': startp, 'b': startb}
+    out = {}
+    for parts in terms:
+        for (pa, ca, dxa, dya, coa) in parts:
+            Sa = Sd[pa]
+            for (pb, cb, dxb, dyb, cob) in parts:
+                Sb_ = Sd[pb]
+                sc = kt * coa * cob * (two / a) ** (dxa + dxb) * (two / b) ** (dya + dyb)      # y-derivatives act on the skin only
+                for (ia, ja, qa) in Sa.dofs():
+                    if qa != ca:
+                        continue
+                    for (ib, jb, qb) in Sb_.dofs():
+                        if qb != cb:
+                            continue
+                        vx = (a / 2) * atoms.I(dxa, ia, Sa.flags[ca]['x'], dxb, ib, Sb_.flags[cb]['x'])
+                        fa, fb = Sym.lift(atoms._flag(ja, Sa.flags[ca]['y'])), Sym.lift(atoms._flag(jb, Sb_.flags[cb]['y']))
+                        if pa == 'p' and pb == 'p':
+                            vy = (b / 2) * atoms.I(dya, ja, Sa.flags[ca]['y'], dyb, jb, Sb_.flags[cb]['y'], lim=(eta1, eta2))
+                        elif pa == 'b' and pb == 'b':
+                            vy = (b / 2) * c1 * atoms.I(dya, ja, Sa.flags[ca]['y'], dyb, jb, Sb_.flags[cb]['y'])
+                        elif pa == 'b':
+                            vy = (b / 2) * c1 * fa * fb * atoms.raw_c0c1(dya, ja, dyb, jb, c0, c1)
+                        else:
+                            vy = (b / 2) * c1 * fa * fb * atoms.raw_c0c1(dyb, jb, dya, ja, c0, c1)
+                        key = (start[pa] + Sa.dof(ia, ja, qa), start[pb] + Sb_.dof(ib, jb, qb))
+                        out[key] = out[key] + sc * vx * vy if key in out else sc * vx * vy
+    return out
+
+
 def build(cfg, values=None):
     variant = cfg['variant']
     ctx = PanelCtx(values=values, seed=cfg.get('seed', 0))
@@ -324,6 +363,16 @@ def build(cfg, values=None):
             H = finalize_symmetric_matrix(tot).todict()
             for k in sorted(set(K) | set(H)):
                 obs.append(('tstiff2d-k0-vs-parts[%d,%d]' % (k[0], k[1]), K.get(k, 0), H.get(k, 0)))
+            # the skin/base blocks are the Hessian of the face-to-face mismatch energy over the strip y1 <= y <= y2 of the skin (= the
+            # whole base):  kt/2 int int [(u_p + dpb w_p,x - u_b)^2 + (v_p + dpb w_p,y - v_b)^2 + (w_p - w_b)^2] dx dy   (>= 0)
+            cblk = conn.fkCppy1y2(y1, y2, ktpb, bay.a, bay.b, st.dpb, bay.m, bay.n, *bflags, total, 0, 0)
+            cblk = cblk + conn.fkCpby1y2(y1, y2, ktpb, bay.a, bay.b, st.dpb, bay.m, bay.n, st.base.m, st.base.n, *bflags, *sflags, total, 0, r0)
+            cblk = cblk + conn.fkCbbpby1y2(y1, y2, ktpb, bay.a, bay.b, st.base.m, st.base.n, *sflags, total, r0, r0)
+            Cd = finalize_symmetric_matrix(cblk).todict()
+            He = strip_mismatch_hessian(ctx.atoms, Sym.lift(ktpb), Sym.lift(st.dpb), series_of(bay.panels[0], 'plate', b=bay.b), series_of(st.base, 'plate'),
+                                        2 * y1 / bay.b - 1, 2 * y2 / bay.b - 1, bay.a, bay.b, 0, r0)
+            for k in sorted(set(Cd) | set(He)):
+                obs.append(('tstiff2d-skin-base-connection-vs-mismatch-energy[%d,%d]' % (k[0], k[1]), Cd.get(k, 0), He.get(k, 0)))
             # geometric stiffness and mass: base block at the stiffener's range, flange block right after it
             st.base.Nxx, st.flange.Nxx = ctx.V('Nxxb'), ctx.V('Nxxf')
             for nm in ('kG0', 'kM'):
@@ -360,6 +409,23 @@ def build(cfg, values=None):
             H = finalize_symmetric_matrix(tot).todict()
             for k in sorted(set(K) | set(H)):
                 obs.append(('bladestiff2d-k0-vs-parts[%d,%d]' % (k[0], k[1]), K.get(k, 0), H.get(k, 0)))
+            # the three connection blocks are the Hessian of the skin/flange mismatch energy on the line y = ys of the skin and the
+            # root edge (eta = -1) of the flange:  kt/2 int [(u_s-u_f)^2 + (v_s-w_f)^2 + (w_s+v_f)^2] + kr/2 int (w_s,y - w_f,y)^2  (>= 0)
+            from ..oracles import penalty as PEN
+            cblk = mod.fkCss(kt, kr, sp['ys'], bay.a, bay.b, bay.m, bay.n, *bflags, total, 0, 0)
+            cblk = cblk + mod.fkCsf(kt, kr, sp['ys'], bay.a, bay.b, sp['bf'], bay.m, bay.n, sp['spec']['mf'], sp['spec']['nf'], *bflags, *fflags, total, 0, r0)
+            cblk = cblk + mod.fkCff(kt, kr, bay.a, sp['bf'], sp['spec']['mf'], sp['spec']['nf'], *fflags, total, r0, r0)
+            Cd = finalize_symmetric_matrix(cblk).todict()
+            ikind, jterms = PEN.jumps('BFycte', Sym.lift(kt), Sym.lift(kr))
+            Ss = {1: series_of(bay.panels[0], 'plate', b=bay.b), 2: series_of(st.flange, 'plate')}
+            Hc = PEN.hessian(ctx.atoms, ikind, jterms, Ss, {1: 2 * sp['ys'] / bay.b - 1, 2: Sym.lift(-1)}, bay.a, bay.b)
+            start = {1: 0, 2: r0}
+            He = {}
+            for ((pa, da), (pb, db)), v in Hc.items():
+                kk = (start[pa] + da, start[pb] + db)
+                He[kk] = He[kk] + v if kk in He else v
+            for k in sorted(set(Cd) | set(He)):
+                obs.append(('bladestiff2d-connection-vs-mismatch-energy[%d,%d]' % (k[0], k[1]), Cd.get(k, 0), He.get(k, 0)))
             # geometric stiffness (flange only: the pad-up carries no pre-load in the package) and mass (base at the skin amplitudes)
             st.flange.Nxx = ctx.V('Nxxf')
             for nm in ('kG0', 'kM'):
@@ -372,6 +438,51 @@ def build(cfg, values=None):
                 for k in sorted(set(Kn) | set(Hn)):
                     obs.append(('bladestiff2d-%s-vs-parts[%d,%d]' % (nm, k[0], k[1]), Kn.get(k, 0), Hn.get(k, 0)))
             obs += wiring_obligations(bay, comps)
+        elif variant == 'blade1d-energy':
+            # BladeStiff1D flange (1-D beam riding on the skin at y = ys): its stiffness and geometric stiffness are the Hessians of
+            #   bf/2 int_0^a [ E1 X^2 + F1 w,xx^2 + Jxx w,xy^2 - 2 S1 X w,xy ] dx ,  X = u,x + dbf w,xx      (section constants of _rebuild)
+            #   Fx/2 int_0^a w,x^2 dx
+            # evaluated with the SKIN's series on the line y = ys; the stiffener adds a positive semi-definite stiffness iff that
+            # quadratic form is: E1 >= 0, F1 >= 0, Jxx >= 0 and E1*Jxx >= S1^2 for every admissible flange laminate
+            from ..oracles import penalty as PEN
+            bay, comps = make_bay(ctx, cfg)
+            kind, st = comps[0]
+            bay._rebuild()
+            total = bay.get_size()
+            st.Fx = ctx.V('Fx')
+            st.calc_k0(size=total, row0=0, col0=0, silent=True)
+            K = st.k0.todict()
+            st.calc_kG0(size=total, row0=0, col0=0, silent=True)
+            G = st.kG0.todict()
+            S = series_of(bay.panels[0], 'plate', b=bay.b)
+            eta = 2 * st.ys / bay.b - 1
+            E1, F1, S1, Jxx, bf, df = [Sym.lift(x) for x in (st.E1, st.F1, st.S1, st.Jxx, st.bf, st.dbf)]
+            one = Sym.lift(1)
+            X = [(1, 'u', 1, 0, one), (1, 'w', 2, 0, df)]
+            Y = [(1, 'w', 1, 1, one)]
+            terms = [(bf * (E1 - S1), X), (bf * (Jxx - S1), Y), (bf * S1, X + [(1, 'w', 1, 1, -one)]), (bf * F1, [(1, 'w', 2, 0, one)])]
+            H = {(ka[1], kb[1]): v for (ka, kb), v in PEN.hessian(ctx.atoms, 'x-line', terms, {1: S}, {1: eta}, bay.a, bay.b).items()}
+            for k in sorted(set(K) | set(H)):
+                obs.append(('bladestiff1d-flange-k0-vs-beam-energy[%d,%d]' % k, K.get(k, 0), H.get(k, 0)))
+            HG = {(ka[1], kb[1]): v for (ka, kb), v in PEN.hessian(ctx.atoms, 'x-line', [(Sym.lift(st.Fx), [(1, 'w', 1, 0, one)])], {1: S}, {1: eta}, bay.a, bay.b).items()}
+            for k in sorted(set(G) | set(HG)):
+                obs.append(('bladestiff1d-flange-kG0-vs-prestress-work[%d,%d]' % k, G.get(k, 0), HG.get(k, 0)))
+            conds = [('E1>=0', E1), ('F1>=0', F1), ('Jxx>=0', Jxx), ('E1*Jxx>=S1^2', E1 * Jxx - S1 * S1)]
+            for nm, xq in conds:
+                if values is None:
+                    num = Sym._z(xq.n)
+                    den = Sym._mono(xq.d) if xq.d else None
+                    obs.append(('flange-section-form-psd[%s]' % nm, [(num * den < 0) if den is not None else (num < 0)]))
+                else:
+                    obs.append(('flange-section-form-psd[%s]' % nm, Sym.lift(1 if xq.n < 0 else 0), Sym.lift(0)))
+            if values is None:
+                # admissible flange: every ply's in-plane stiffness positive definite, positive thicknesses and width
+                for ply in st.flam.plies:
+                    q = ply.QL
+                    q00, q01, q02, q11, q12, q22 = [Sym._z(Sym.lift(q[i, j]).n) for (i, j) in ((0, 0), (0, 1), (0, 2), (1, 1), (1, 2), (2, 2))]
+                    assumptions += [q00 > 0, q00 * q11 - q01 * q01 > 0,
+                                    q00 * (q11 * q22 - q12 * q12) - q01 * (q01 * q22 - q12 * q02) + q02 * (q01 * q12 - q11 * q02) > 0, Sym._z(Sym.lift(ply.t).n) > 0]
+                assumptions += [Sym._z(bf.n) > 0]
         elif variant == 'partition':
             which = cfg['which']
             res = []
@@ -496,6 +607,9 @@ def configs(tier, seed):
         out.append({'variant': 'bay-fext', 'm': 2, 'n': 1, 'stiffeners': st, 'group': 'bay-fext:%s' % name})
     out.append({'variant': 'bay-sum', 'which': 'kG0', 'm': 2, 'n': 1, 'stiffeners': [B1()], 'skin_loads': 'shear-only', 'group': 'bay-sum:B1:kG0:skin-in-pure-shear', 'timeout_ms': 120000})
     out.append({'variant': 'bay-sum', 'which': 'kG0', 'm': 1, 'n': 2, 'stiffeners': [B2(1, 1)], 'skin_loads': 'mixed', 'group': 'bay-sum:B2:kG0:strip-wise-different-loads', 'timeout_ms': 120000})
+    out.append({'variant': 'blade1d-energy', 'm': 2, 'n': 2, 'stiffeners': [B1()], 'group': 'bladestiff1d-flange-energy'})
+    out.append({'variant': 'blade1d-energy', 'm': 1, 'n': 4, 'stiffeners': [B1()], 'group': 'bladestiff1d-flange-energy'})
+    out.append({'variant': 'blade1d-energy', 'm': 4, 'n': 1, 'stiffeners': [B1()], 'group': 'bladestiff1d-flange-energy'})
     out.append({'variant': 'blade2d-parts', 'm': 1, 'n': 2, 'stiffeners': [B2(2, 1, True)], 'group': 'bladestiff2d-k0-composition'})
     out.append({'variant': 'blade2d-parts', 'm': 2, 'n': 1, 'stiffeners': [B2(1, 2)], 'group': 'bladestiff2d-k0-composition'})
     out.append({'variant': 'tstiff-parts', 'm': 1, 'n': 2, 'stiffeners': [T(1, 2, 2, 1)], 'group': 'tstiff2d-k0-composition'})
@@ -538,15 +652,43 @@ def main():
     run.assume('bay length/width concrete (the stiffener code compares a/b with 10 and caps the penalty constant with min(1e7, kt): symbolic kt is taken below the cap)',
                'component laminates are contract stubs with symbolic ABD (C01)', 'stand-alone component matrices are decided against energies in C02-C04/C12; this check decides the composition',
                'sub-interval additivity lemma (C10) for the skin partition')
-    run.outside = ['that a stiffener contribution is the Hessian of its own beam energy (PSD follows from that, not decided here)', 'more than 4 stiffeners / 4 cuts']
+    run.outside = ['positive semi-definiteness of the 2-D stiffeners is composed from C02/C04 (component panels) and C12-type penalty blocks; the blocks themselves are decided against the mismatch energy here only for BladeStiff2D', 'more than 4 stiffeners / 4 cuts']
     res = pmap(kprop.job, [(__name__, c) for c in cf])
     res = kprop.explore_loci(__name__, res, run)      # second pass: the equality loci the executed code branched on
     for r in res:
         if 'cfg' in r:
             r['cfg'].setdefault('m', 1)
             r['cfg'].setdefault('n', 1)
-    kprop.handle(run, res, build, 'entries differ from the sum of the component results at their ranges')
+    kprop.handle(run, res, build, 'entries differ from the sum of the component results at their ranges', signature=signature)
     return run.finish()
+
+
+def signature(cfg, fam, names):
+    if fam == 'flange-section-form-psd':
+        return '+'.join(sorted(n.split('[', 1)[1].rstrip(']') for n in names))
+    return None
+
+
+def real_witness(cfg, fam):
+    """compiled build (floats): smallest eigenvalue of BladeStiff1D.calc_k0 for flange laminates with and without extension-twist
+    coupling (a carbon/epoxy ply; 6 x 6 terms)"""
+    if fam != 'flange-section-form-psd':
+        return None
+    from compmech.stiffpanelbay import StiffPanelBay
+    lp = (142.5e9, 8.7e9, 0.28, 5.1e9, 5.1e9, 5.1e9)
+    out = {}
+    for fstack in ([0, 90, 90, 0], [45, 45], [30, 30, 30, 30]):
+        bay = StiffPanelBay()
+        bay.a, bay.b, bay.m, bay.n = 2., 1., 6, 6
+        bay.stack, bay.plyt, bay.laminaprop, bay.mu = [0, 90, 90, 0], 0.125e-3, lp, 1.3e3
+        bay.add_panel(y1=0, y2=0.5)
+        bay.add_panel(y1=0.5, y2=1.)
+        st = bay.add_bladestiff1d(ys=0.5, bf=0.05, fstack=fstack, fplyt=0.125e-3, flaminaprop=lp, mu=1.3e3)
+        st.calc_k0(size=bay.get_size(), row0=0, col0=0, silent=True)
+        ev = np.linalg.eigvalsh(st.k0.toarray())
+        out[str(fstack)] = {'E1': float(st.E1), 'S1': float(st.S1), 'Jxx': float(st.Jxx), 'E1*Jxx-S1^2': float(st.E1 * st.Jxx - st.S1 ** 2),
+                            'min_eigenvalue': float(ev.min()), 'max_eigenvalue': float(ev.max())}
+    return out
 
 
 def real_exception(cfg):
